@@ -38,6 +38,31 @@ def _is_inf(e):
 
 
 # ================================================================================================= C12 (Python DBA)
+def _bool_eval(c, assign):
+    """Three-valued evaluation of a boolean IR expression under a partial assignment of atoms (IR expr -> bool); None = unknown."""
+    if c in assign:
+        return assign[c]
+    if c[0] == 'bool':
+        return c[1]
+    if c[0] == 'un' and c[1] == 'not':
+        v = _bool_eval(c[2], assign)
+        return None if v is None else (not v)
+    if c[0] == 'bin' and c[1] in ('and', 'or'):
+        a, b = _bool_eval(c[2], assign), _bool_eval(c[3], assign)
+        if c[1] == 'and':
+            if a is False or (a is True and b is False):
+                return False
+            if a is True and b is True:
+                return True
+            return None
+        if a is True or (a is False and b is True):
+            return True
+        if a is False and b is False:
+            return False
+        return None
+    return None
+
+
 def rule_dba_py(ctx, m):
     pm, f = _func(m, 'dtaidistance.dtw_barycenter', 'dba')
     file = pm.path
@@ -51,9 +76,19 @@ def rule_dba_py(ctx, m):
         raise AnalysisError('unrecognised shape: series loop of dtw_barycenter.dba')
     idxv, seqv = main.target[1][0], main.target[1][1]
     first = main.body[0] if main.body else None
-    ok_mask = first is not None and first.k == 'if' and any(x == ('idx', ('var', 'mask'), idxv) for x in walk_expr(first.cond)) \
-        and first.then and first.then[-1].k == 'continue' and first.cond[0] == 'bin' and first.cond[1] == 'and' \
-        and first.cond[3] == ('un', 'not', ('idx', ('var', 'mask'), idxv))
+    maskn = f.args[2] if len(f.args) > 2 else 'mask'
+    ok_mask = False
+    if first is not None and first.k == 'if' and first.then and first.then[-1].k == 'continue' and not first.els:
+        # truth table over A = (mask is None), B = mask[idx]: the series is skipped exactly when (not A) and (not B)
+        A, B = ('bin', 'is', ('var', maskn), ('none',)), ('idx', ('var', maskn), idxv)
+        ok_mask = True
+        for a in (False, True):
+            for b in (False, True):
+                v = _bool_eval(first.cond, {A: a, ('bin', 'isnot', ('var', maskn), ('none',)): not a, B: b})
+                if a and v is None:
+                    # mask is None: mask[idx] must not be what decides (it would raise): evaluate with B unknown
+                    v = _bool_eval(first.cond, {A: a, ('bin', 'isnot', ('var', maskn), ('none',)): not a})
+                ok_mask = ok_mask and v is ((not a) and (not b))
     ctx.check(ok_mask, 'R-PATH', file, 'dba', 'mask guard', 'unselected series must be skipped (`if mask is not None and not mask[idx]: continue`) before any accumulation', main.line)
     acc = None
     for st in main.body:
@@ -65,7 +100,8 @@ def rule_dba_py(ctx, m):
     if acc:
         st, t = acc
         i_, j_ = st.target[1]
-        ok = t.value[1][1] == ('idx', ('var', 'assoctab'), i_) and t.value[2] == (('idx', seqv, j_),) and len(st.body) == 1
+        tgt_ = t.value[1][1]
+        ok = tgt_[0] == 'idx' and tgt_[1][0] == 'var' and tgt_[2] == i_ and t.value[2] == (('idx', seqv, j_),) and len(st.body) == 1
         # the path is between (c, seq): first index addresses the average
         pathv = st.iter
         srcs = [s_ for s_ in walk_stmts(main.body) if s_.k == 'assign' and s_.target == pathv]
@@ -74,10 +110,21 @@ def rule_dba_py(ctx, m):
     ctx.check(ok, 'R-PATH', file, 'dba', 'accumulation', 'each path pair (i, j) must append seq[j] to assoctab[i] exactly once', main.line)
     # mean
     okm = False
+    sdefs = {}
     for s in walk_stmts(f.body):
-        if s.k == 'assign' and s.target[0] == 'idx' and s.target[1] == ('var', 'cp') and s.value[0] == 'bin' and s.value[1] == '/':
-            num, den = s.value[2], s.value[3]
-            if den == ('call', ('var', 'len'), (('var', 'values'),), ()) and num[0] == 'call' and dotted(num[1]) == 'sum':
+        if s.k == 'assign' and s.target[0] == 'var':
+            sdefs.setdefault(s.target[1], []).append(s.value)
+    sdefs = {k_: v_[0] for k_, v_ in sdefs.items() if len(v_) == 1}
+    for s in walk_stmts(f.body):
+        # the mean store: <new average>[...] = <sum-like>(V) / len(V) for one and the same V
+        val = s.value if s.k == 'assign' else None
+        if val is not None and val[0] == 'bin' and val[1] == '/' and val[3][0] == 'var' and val[3][1] in sdefs:
+            val = ('bin', '/', val[2], sdefs[val[3][1]])          # the count held in a local
+        if s.k == 'assign' and s.target[0] == 'idx' and s.target[1][0] == 'var' and val[0] == 'bin' and val[1] == '/' \
+                and val[3][0] == 'call' and val[3][1] == ('var', 'len'):
+            num, den = val[2], val[3]
+            vv = den[2][0] if len(den[2]) == 1 else None
+            if vv is not None and num[0] == 'call' and dotted(num[1]) == 'sum' and any(x == vv for a in num[2] for x in walk_expr(a)):
                 okm = True
             else:
                 okm = False
@@ -189,55 +236,151 @@ def rule_subseq_align(ctx, m):
     if not loop:
         raise AnalysisError('unrecognised shape: no search loop in _best_matches')
     loop = loop[0]
-    stores = [s for s in walk_stmts(bm.body) if s.k == 'assign' and s.target[0] == 'idx' and s.target[1] == ('var', 'matching')]
-    ok = bool(stores) and all(_is_inf(s.value) or s.value == ('var', 'maxv') for s in stores)
-    mv = [s for s in bm.body if s.k == 'assign' and s.target == ('var', 'maxv')]
-    ok_maxv = bool(mv) and any((dotted(c[1]) or '').endswith('max') for c in walk_expr(mv[0].value) if c[0] == 'call')
+    # roles: W = the private working copy (a local made from self.matching); MV = the local built from max(W) used as "blanked" value;
+    # BEST = the local holding np.argmin(W) inside the loop
+    from ..symexec import Exec, Env, subst_expr
+    from itertools import product
+    from .. import sym as _sym
+    pre = bm.body[:bm.body.index(loop)]
+    selfm = ('attr', ('var', 'self'), 'matching')
+    cp = [s for s in pre if s.k == 'assign' and s.target[0] == 'var' and s.value[0] == 'call' and (dotted(s.value[1]) or '') in ('np.array', 'np.copy', 'numpy.array', 'numpy.copy')
+          and s.value[2][:1] == (selfm,)]
+    direct = [s for s in walk_stmts(bm.body) if s.k == 'assign' and s.target[0] == 'idx' and s.target[1] == selfm]
+    ctx.check(len(cp) == 1 and not direct, 'R-EFF', file, 'SubsequenceAlignment._best_matches', 'private working copy',
+              'the search blanks entries: it must work on a copy (np.array(self.matching)) so repeated/interleaved iteration sees the same matching function', bm.line)
+    if len(cp) != 1:
+        return
+    W = cp[0].target
+    mvs = [s for s in pre if s.k == 'assign' and s.target[0] == 'var' and any(c[0] == 'call' and (dotted(c[1]) or '').endswith('max') and any(x == W for a in c[2] for x in walk_expr(a))
+                                                                             for c in walk_expr(s.value))]
+    MV = mvs[0].target if mvs else None
+    stores = [s for s in walk_stmts(bm.body) if s.k == 'assign' and s.target[0] == 'idx' and s.target[1] == W]
+    # maxv must exceed every entry: (max(W) + positive constant), possibly rounded up
+    ok_maxv = False
+    if mvs:
+        v = mvs[0].value
+        while v[0] == 'call' and (dotted(v[1]) or '').split('.')[-1] in ('ceil', 'float', 'int') and len(v[2]) == 1:
+            v = v[2][0]
+        ok_maxv = v[0] == 'bin' and v[1] == '+' and ((v[3][0] == 'num' and v[3][1] > 0) or (v[2][0] == 'num' and v[2][1] > 0))
+    ok = bool(stores) and all(_is_inf(s.value) or (MV is not None and s.value == MV) for s in stores)
     ctx.check(ok and ok_maxv, 'R-EFF', file, 'SubsequenceAlignment._best_matches', 'writes only upper bounds',
               'inside the best-first search every store into the working copy must be +inf or maxv (> max): otherwise yielded values are not non-decreasing', loop.line)
-    cp = [s for s in bm.body if s.k == 'assign' and s.target == ('var', 'matching')]
-    ok = bool(cp) and cp[0].value[0] == 'call' and (dotted(cp[0].value[1]) or '') in ('np.array', 'np.copy') and cp[0].value[2] == (('attr', ('var', 'self'), 'matching'),)
-    ctx.check(ok, 'R-EFF', file, 'SubsequenceAlignment._best_matches', 'private working copy',
-              'the search blanks entries: it must work on a copy (np.array(self.matching)) so repeated/interleaved iteration sees the same matching function', bm.line)
-    # the yielded end point is blanked: matching[mb:me] = inf with me = best_idx + 1 precedes the yield
-    ys = [s for s in walk_stmts(loop.body) if s.k == 'expr' and s.value[0] == 'call' and s.value[1] == ('var', '__yield__')]
-    env = {}
-    for s in loop.body:
-        if s.k == 'assign' and s.target[0] == 'tuple' and s.value[0] == 'tuple':
-            for t, v in zip(s.target[1], s.value[1]):
-                env[t] = v
-    blank = [s for s in loop.body if s.k == 'assign' and s.target == ('idx', ('var', 'matching'), ('slice', ('var', 'mb'), ('var', 'me'), None)) and _is_inf(s.value)]
-    ok = len(ys) == 1 and len(blank) == 1 and env.get(('var', 'me')) == ('bin', '+', ('var', 'best_idx'), ('num', 1)) and blank[0].line < ys[0].line
-    ctx.check(ok, 'R-PATH', file, 'SubsequenceAlignment._best_matches', 'yielded end point blanked',
+    # one symbolic pass over the loop body
+    lenv = Env()
+    for v_ in assigned_vars(loop.body):
+        lenv[v_] = ('var', v_ + '@in')
+    ex = Exec()
+    ex.run(loop.body, lenv)
+    argm = ('call', ('attr', ('var', 'np'), 'argmin'), (W,), ())
+    ys = [e for e in ex.events if e[0] == 'expr' and e[2][0] == 'call' and e[2][1] == ('var', '__yield__')]
+    uses_argmin = any(x == argm for e in ex.events for c in e[1] for x in walk_expr(c)) or any(x == argm for e in ys for x in walk_expr(e[2]))
+    other_sel = [x for e in ex.events for part in (list(e[1]) + [y for y in e[2:] if isinstance(y, tuple)]) for x in walk_expr(part)
+                 if x[0] == 'call' and (dotted(x[1]) or '').split('.')[-1] in ('argmax', 'argsort', 'argpartition')]
+    ctx.check(uses_argmin and not other_sel, 'R-PATH', file, 'SubsequenceAlignment._best_matches', 'best-first', 'each round must pick np.argmin(matching)', loop.line)
+    # the yielded end point is blanked: W[lo:BEST+1] = inf precedes the yield on the yield's path
+    okb = False
+    if len(ys) == 1:
+        yi = ex.events.index(ys[0])
+        for e in ex.events[:yi]:
+            if e[0] == 'store' and e[2][0] == 'idx' and e[2][1] == W and e[2][2][0] == 'slice' and _is_inf(e[3]) \
+                    and e[2][2][2] == ('bin', '+', argm, ('num', 1)) and set(e[1]) <= set(ys[0][1]):
+                okb = True
+    ctx.check(len(ys) == 1 and okb, 'R-PATH', file, 'SubsequenceAlignment._best_matches', 'yielded end point blanked',
               'before a match is yielded its end point range [mb, best_idx + 1) must be set to +inf, so later matches have distinct end points', loop.line)
-    bi = [s for s in loop.body if s.k == 'assign' and s.target == ('var', 'best_idx')]
-    ok = bool(bi) and bi[0].value == ('call', ('attr', ('var', 'np'), 'argmin'), (('var', 'matching'),), ())
-    ctx.check(ok, 'R-PATH', file, 'SubsequenceAlignment._best_matches', 'best-first', 'each round must pick np.argmin(matching)', loop.line)
-    # length limits: a match with segment [b, e] (both inclusive) has e - b + 1 samples; it is rejected iff that is < minlength or > maxlength
-    from .. import sym as _sym
-    seg = [s for s in loop.body if s.k == 'assign' and s.target == ('tuple', (('var', 'b'), ('var', 'e'))) and fmt(s.value) == 'match.segment']
-    lim = {}
-    for st_ in walk_stmts(loop.body):
-        if st_.k != 'if':
-            continue
-        for x in walk_expr(st_.cond):
-            if x[0] == 'bin' and x[1] in ('<', '<=', '>', '>=') and x[3][0] == 'var' and x[3][1] in ('minlength', 'maxlength'):
-                try:
-                    t = _sym.from_ir(x[2], atom=lambda y: y[1] if y[0] == 'var' and y[1] in ('b', 'e') else None)
-                except Exception:  # noqa
-                    t = None
-                # normalise to a strict comparison of an integer length: X >= m  <=>  X + 1 > m ;  X <= m  <=>  X - 1 < m
-                if t is not None and x[1] == '>=':
-                    t = _sym.add(t, _sym.const(1))
-                if t is not None and x[1] == '<=':
-                    t = _sym.sub(t, _sym.const(1))
-                lim[x[3][1]] = (x[1][0], t, st_.line)
-    want_len = _sym.add(_sym.sub(_sym.var('e'), _sym.var('b')), _sym.const(1))
-    okl = bool(seg) and set(lim) == {'minlength', 'maxlength'} and lim['minlength'][0] == '<' and lim['maxlength'][0] == '>' \
-        and lim['minlength'][1] == want_len and lim['maxlength'][1] == want_len
+    # length limits: a match with segment [b, e] (both inclusive) has e - b + 1 samples; it is yielded only if not (minlength is not None and
+    # length < minlength) and not (maxlength is not None and length > maxlength) -- truth table over the yield's path conditions
+    limits = [a for a in bm.args if a in ('minlength', 'maxlength')]
+    okl = len(ys) == 1 and len(limits) == 2
+    detail = ''
+    if okl:
+        def seg_atom(y):
+            if y[0] == 'idx' and y[1][0] == 'attr' and y[1][2] == 'segment' and y[2] in (('num', 0), ('num', 1)):
+                return 'b' if y[2][1] == 0 else 'e'
+            return None
+        L = _sym.add(_sym.sub(_sym.var('e'), _sym.var('b')), _sym.const(1))
+
+        def canon(x):
+            """comparison of the segment length with a limit -> (atom, polarity) with atoms ('LT', limit) = length < limit, ('GT', limit) = length > limit"""
+            if not (x[0] == 'bin' and x[1] in ('<', '<=', '>', '>=')):
+                return None
+            op, l, r = x[1], x[2], x[3]
+            if l[0] == 'var' and l[1] in limits:
+                l, r = r, l
+                op = {'<': '>', '<=': '>=', '>': '<', '>=': '<='}[op]
+            if not (r[0] == 'var' and r[1] in limits):
+                return None
+            try:
+                t = _sym.from_ir(l, atom=seg_atom)
+                d = _sym.sub(t, L)
+            except Exception:  # noqa
+                return ('?', r[1]), True
+            if not _sym.is_const(d):
+                return ('?', r[1]), True
+            c_ = d[2]
+            tab = {('<', 0): (('LT', r[1]), True), ('<', -1): (('GT', r[1]), False), ('<=', 1): (('LT', r[1]), True), ('<=', 0): (('GT', r[1]), False),
+                   ('>', 0): (('GT', r[1]), True), ('>', 1): (('LT', r[1]), False), ('>=', 0): (('LT', r[1]), False), ('>=', -1): (('GT', r[1]), True)}
+            return tab.get((op, c_), (('?', r[1]), True))
+        conds = [c for c in ys[0][1] if any(x[0] == 'var' and x[1] in limits for x in walk_expr(c))]
+
+        def leaves(c):
+            if c[0] == 'un' and c[1] == 'not':
+                return leaves(c[2])
+            if c[0] == 'bin' and c[1] in ('and', 'or'):
+                return leaves(c[2]) + leaves(c[3])
+            return [c]
+        others = []
+        for c in conds:
+            for lf in leaves(c):
+                if canon(lf) is None and not (lf[0] == 'bin' and lf[1] in ('is', 'isnot') and lf[2][0] == 'var' and lf[2][1] in limits) and lf not in others:
+                    others.append(lf)
+        unknown = any(canon(lf) is not None and canon(lf)[0][0] == '?' for c in conds for lf in leaves(c))
+        okl = bool(conds) and not unknown and len(others) <= 4
+        if okl:
+            for none_min, rel_min, none_max, rel_max in product((True, False), (-1, 0, 1), (True, False), (-1, 0, 1)):
+                base = {}
+                for lim, isn, rel in (('minlength', none_min, rel_min), ('maxlength', none_max, rel_max)):
+                    base[('bin', 'is', ('var', lim), ('none',))] = isn
+                    base[('bin', 'isnot', ('var', lim), ('none',))] = not isn
+                    if not isn:
+                        base[('LT', lim)] = rel < 0
+                        base[('GT', lim)] = rel > 0
+                want = not ((not none_min and rel_min < 0) or (not none_max and rel_max > 0))
+                got = False
+                for ov in product((False, True), repeat=len(others)):
+                    asg = dict(base)
+                    asg.update(dict(zip(others, ov)))
+
+                    def ev(c):
+                        if c[0] == 'un' and c[1] == 'not':
+                            v = ev(c[2])
+                            return None if v is None else (not v)
+                        if c[0] == 'bin' and c[1] in ('and', 'or'):
+                            a = ev(c[2])
+                            if c[1] == 'and' and a is False:
+                                return False
+                            if c[1] == 'or' and a is True:
+                                return True
+                            b_ = ev(c[3])
+                            if a is None or b_ is None:
+                                return None
+                            return (a and b_) if c[1] == 'and' else (a or b_)
+                        cn = canon(c)
+                        if cn is not None:
+                            v = asg.get(cn[0])
+                            return None if v is None else (v if cn[1] else not v)
+                        return asg.get(c)
+                    if all(ev(c) is True for c in conds):
+                        got = True
+                        break
+                if got != want:
+                    okl = False
+                    detail = 'with minlength %s, maxlength %s the match is %s' % (
+                        'None' if none_min else ('> length' if rel_min < 0 else ('== length' if rel_min == 0 else '< length')),
+                        'None' if none_max else ('> length' if rel_max < 0 else ('== length' if rel_max == 0 else '< length')),
+                        'yielded' if got else 'never yielded')
+                    break
     ctx.check(okl, 'R-PATH', file, 'SubsequenceAlignment._best_matches', 'length limits',
-              'a match over series samples b..e (inclusive) has e - b + 1 samples and must be rejected exactly when that is < minlength or > maxlength; found %s'
-              % {k: (v[0], _sym.show(v[1]) if v[1] is not None else None) for k, v in lim.items()}, loop.line)
+              'a match over series samples b..e (inclusive) has e - b + 1 samples and must be rejected exactly when that is < minlength or > maxlength; %s' % detail, loop.line)
 
 
 # ================================================================================================= C14
@@ -268,25 +411,39 @@ def rule_subseq_search(ctx, m):
     ctx.check(mentions_psi or pre_guard, 'R-PATH', file, 'SubsequenceSearch.align', 'LB_Keogh used under psi-relaxation',
               'LB_Keogh lower-bounds DTW only without psi-relaxation; the pruning branch `if self.use_lb:` is not guarded against a psi option in dists_options, '
               'so true neighbours can be skipped', lb_if.line)
+    # roles (not spellings): heap = first argument of heapq.heappush*; thr = the local that is reset from self.max_dist before the loop;
+    # lb = the local assigned from lb_keogh(...); dist = the local assigned from the distance call inside the loop
+    pre = al.body[:al.body.index(loop)]
+    thr_defs = [s for s in pre if s.k == 'assign' and s.target[0] == 'var' and s.value[0] in ('attr', 'idx') and 'max_dist' in fmt(s.value)]
+    if not thr_defs:
+        raise AnalysisError('unrecognised shape: no running threshold initialised before the candidate loop of SubsequenceSearch.align')
+    thr = thr_defs[-1].target
+    lbs = [t.target for t in walk_stmts(lb_if.then) if t.k == 'assign' and t.target[0] == 'var' and any(x[0] == 'call' and x[1] == ('var', 'lb_keogh') for x in walk_expr(t.value))]
+    lbv = lbs[0] if lbs else None
+    dists_ = [t.target for t in walk_stmts(loop.body) if t.k == 'assign' and t.target[0] == 'var' and t.value[0] == 'call' and fmt(t.value[1]) in ('self.dists_fun', 'dists_fun', 'distance_fn')]
+    if not dists_:
+        dists_ = [t.target for t in walk_stmts(loop.body) if t.k == 'assign' and t.target[0] == 'var' and t.value[0] == 'call' and 'dist' in fmt(t.value[1]) and t.target != lbv]
+    distv = dists_[0] if dists_ else None
+    pushes = [(s, c) for s, c in calls_in(loop.body) if (dotted(c[1]) or '') in ('heapq.heappush', 'heapq.heappushpop')]
+    heapv = pushes[0][1][2][0] if pushes and pushes[0][1][2] else None
     # (ii) strictness
     skip = [t for t in lb_if.then if t.k == 'if' and t.then and t.then[-1].k == 'continue']
-    ok = len(skip) == 1 and skip[0].cond == ('bin', '>', ('var', 'lb'), ('var', 'max_dist'))
+    ok = len(skip) == 1 and lbv is not None and skip[0].cond == ('bin', '>', lbv, thr)
     ctx.check(ok, 'R-PRUNE', file, 'SubsequenceSearch.align', 'LB skip comparator', 'a candidate may be skipped only when `lb > max_dist` (ties must be kept)', lb_if.line)
-    adm = [x for s in walk_stmts(loop.body) if s.k == 'if' for x in walk_expr(s.cond) if x[0] == 'bin' and x[1] in ('<', '<=') and x[2] == ('var', 'dist') and x[3] == ('var', 'max_dist')]
+    adm = [x for s in walk_stmts(loop.body) if s.k == 'if' for x in walk_expr(s.cond) if x[0] == 'bin' and x[1] in ('<', '<=') and x[2] == distv and x[3] == thr]
     ctx.check(bool(adm) and all(x[1] == '<=' for x in adm), 'R-PRUNE', file, 'SubsequenceSearch.align', 'admission comparator',
               'a candidate is admitted when `dist <= max_dist` (a distance equal to the current k-th best must not be dropped)', loop.line)
     # (iii) threshold re-read after every push
-    pushes = [(s, c) for s, c in calls_in(loop.body) if (dotted(c[1]) or '') in ('heapq.heappush', 'heapq.heappushpop')]
-    ok = len(pushes) == 2
-    want = ('call', ('var', 'min'), (('var', 'max_dist'), ('un', 'neg', ('idx', ('idx', ('var', 'h'), ('num', 0)), ('num', 0)))), ())
+    ok = len(pushes) == 2 and heapv is not None and all(c[2][0] == heapv for _s, c in pushes)
+    want = ('call', ('var', 'min'), (thr, ('un', 'neg', ('idx', ('idx', heapv, ('num', 0)), ('num', 0)))), ())
     for s, c in pushes:
         blk = _block_of(loop.body, s)
         i = blk.index(s)
         nxt = blk[i + 1] if i + 1 < len(blk) else None
-        ok = ok and nxt is not None and nxt.k == 'assign' and nxt.target == ('var', 'max_dist') and nxt.value == want
+        ok = ok and nxt is not None and nxt.k == 'assign' and nxt.target == thr and nxt.value == want
     ctx.check(ok, 'R-PATH', file, 'SubsequenceSearch.align', 'threshold follows heap root',
               'after every heappush/heappushpop the running threshold must be tightened to min(max_dist, -h[0][0])', loop.line)
-    fw = [s for s in walk_stmts(loop.body) if s.k == 'assign' and s.target == ('idx', ('attr', ('var', 'self'), 'dists_options'), ('str', 'max_dist')) and s.value == ('var', 'max_dist')]
+    fw = [s for s in walk_stmts(loop.body) if s.k == 'assign' and s.target == ('idx', ('attr', ('var', 'self'), 'dists_options'), ('str', 'max_dist')) and s.value == thr]
     ctx.check(bool(fw), 'R-PATH', file, 'SubsequenceSearch.align', 'threshold forwarded', 'the tightened threshold must be written to dists_options["max_dist"] for the next distance call', loop.line)
     # (iv) distances[idx] defined on every path through an iteration
     st = [s for s in walk_stmts(loop.body) if s.k == 'assign' and s.target == ('idx', ('attr', ('var', 'self'), 'distances'), loop.target[1][0])]
@@ -296,14 +453,13 @@ def rule_subseq_search(ctx, m):
               'when all distances are kept (k is None or keep_all_distances) the lower-bound `continue` leaves self.distances[idx] at its initial 0: skipped '
               'candidates later rank as perfect matches', (bad[0].line if bad else loop.line))
     # (vi) reset of the threshold from self.max_dist before the loop
-    pre = al.body[:al.body.index(loop)]
-    r1 = any(s.k == 'assign' and s.target == ('var', 'max_dist') and s.value == ('attr', ('var', 'self'), 'max_dist') for s in pre)
-    r2 = any(s.k == 'assign' and s.target == ('idx', ('attr', ('var', 'self'), 'dists_options'), ('str', 'max_dist')) and s.value == ('var', 'max_dist') for s in pre)
+    r1 = any(s.k == 'assign' and s.target == thr and s.value == ('attr', ('var', 'self'), 'max_dist') for s in pre)
+    r2 = any(s.k == 'assign' and s.target == ('idx', ('attr', ('var', 'self'), 'dists_options'), ('str', 'max_dist')) and s.value == thr for s in pre)
     ctx.check(r1 and r2, 'R-PATH', file, 'SubsequenceSearch.align', 'threshold reset', 'every non-cached align must restart from self.max_dist (also in dists_options), not from the threshold left by the previous search', al.line)
     # sentinel and ordering
     kb = [s for s in walk_stmts(al.body) if s.k == 'assign' and s.target == ('attr', ('var', 'self'), 'kbest_distances')]
     ok = any(s.value[0] == 'call' and s.value[1] == ('var', 'sorted') and 'i != -1' in fmt(s.value).replace('(', '').replace(')', '') for s in kb)
-    hinit = [s for s in al.body if s.k == 'assign' and s.target == ('var', 'h')]
+    hinit = [s for s in al.body if s.k == 'assign' and s.target == heapv]
     ok2 = bool(hinit) and fmt(hinit[0].value).replace(' ', '') in ('[(-inf,-1)]', '[(-np.inf,-1)]')
     ctx.check(ok and ok2, 'R-PATH', file, 'SubsequenceSearch.align', 'sentinel filtered, ascending order',
               'the heap starts with the sentinel (-inf, -1); the result must be sorted ascending with the sentinel (i == -1) removed', al.line)
@@ -555,23 +711,45 @@ def rule_alignment_tables(ctx, m):
         if s.k == 'assign' and s.target[0] == 'var':
             env[s.target[1]] = s.value
     arrows = {}
+    # the score matrix: the array whose cell receives the minimum over the three candidates
+    score_arr = None
     for s in walk_stmts(f.body):
-        if s.k == 'if' and s.cond[0] == 'bin' and s.cond[1] == '==' and s.cond[3][0] == 'var' and s.cond[2][0] == 'idx' and s.cond[2][1] == ('var', 'scores'):
-            src = env.get(s.cond[3][1])
-            tgt = s.cond[2][2]
-            rd = [x for x in walk_expr(src) if x[0] == 'idx' and x[1] == ('var', 'scores')] if src else []
+        if s.k == 'assign' and s.target[0] == 'idx' and s.target[1][0] == 'var' and s.value[0] in ('min', 'call') and \
+                (s.value[0] == 'min' or dotted(s.value[1]) == 'min') and len(s.value[1] if s.value[0] == 'min' else s.value[2]) == 3:
+            score_arr = s.target[1]
+    if score_arr is None:
+        raise AnalysisError('unrecognised shape: dp.dp stores no minimum over three candidates')
+    for s in walk_stmts(f.body):
+        if s.k == 'if' and s.cond[0] == 'bin' and s.cond[1] == '==':
+            lhs, rhs = s.cond[2], s.cond[3]
+            # the cell just stored (directly or through a local holding it) compared with one candidate
+            def cell(e):
+                if e[0] == 'var' and e[1] in env and env[e[1]][0] == 'idx':
+                    e = env[e[1]]
+                return e if e[0] == 'idx' and e[1] == score_arr else None
+            if cell(lhs) is None and cell(rhs) is not None and lhs[0] == 'var':
+                lhs, rhs = rhs, lhs
+            if cell(lhs) is None or rhs[0] != 'var':
+                continue
+            src = env.get(rhs[1])
+            tgt = cell(lhs)[2]
+            rd = [x for x in walk_expr(src) if x[0] == 'idx' and x[1] == score_arr] if src else []
             for t in s.then:
-                if t.k == 'assign' and t.target[0] == 'idx' and t.target[1] == ('var', 'paths') and t.d.get('aug') == '+':
+                if t.k == 'assign' and t.target[0] == 'idx' and t.target[1][0] == 'var' and t.target[1] != score_arr and t.d.get('aug') == '+':
                     nm = [x[1][2] for x in walk_expr(t.value) if x[0] == 'attr' and x[2] == 'value' and x[1][0] == 'attr' and x[1][1] == ('var', 'Direction')]
                     if nm and len(rd) == 1:
                         arrows[nm[0]] = _offset2(rd[0][2], tgt, env)
     pm2, g = _func(m, 'dtaidistance.alignment', 'best_alignment')
     ops = chars = None
+    ops_name = chars_name = None
     for s in g.body:
-        if s.k == 'assign' and s.target == ('var', 'ops') and s.value[0] == 'list':
+        # the two parallel tables, recognised by their content: offsets (pairs of numbers) and arrow codes (Direction.X.value)
+        if s.k == 'assign' and s.target[0] == 'var' and s.value[0] == 'list' and s.value[1] and all(x[0] == 'tuple' and len(x[1]) == 2 and all(y[0] == 'num' for y in x[1]) for x in s.value[1]):
             ops = [tuple(-abs(y[1]) if y[0] == 'num' else None for y in x[1]) for x in s.value[1]]
-        if s.k == 'assign' and s.target == ('var', 'op_chars') and s.value[0] == 'list':
+            ops_name = s.target[1]
+        if s.k == 'assign' and s.target[0] == 'var' and s.value[0] == 'list' and s.value[1] and all(x[0] == 'attr' and x[2] == 'value' and x[1][0] == 'attr' and x[1][1] == ('var', 'Direction') for x in s.value[1]):
             chars = [x[1][2] if x[0] == 'attr' and x[2] == 'value' else None for x in s.value[1]]
+            chars_name = s.target[1]
     if ops is None or chars is None:
         raise AnalysisError('unrecognised shape: ops/op_chars tables of alignment.best_alignment')
     reader = dict(zip(chars, ops))
@@ -581,7 +759,11 @@ def rule_alignment_tables(ctx, m):
               % (sorted(arrows.items()), sorted(reader.items())), g.line)
     # every index selectable through `order` addresses both tables identically
     sel = [x for s in walk_stmts(g.body) for e in stmt_exprs(s) for x in walk_expr(e) if x[0] == 'comp']
-    ok = any(fmt(c[2]) == 'ops[orderi]' and 'op_chars[orderi]' in fmt(c) for c in sel)
+    ok = False
+    for c in sel:
+        if c[2][0] == 'idx' and c[2][1] == ('var', ops_name) and c[2][2][0] == 'var':
+            ov = c[2][2]
+            ok = ok or any(x == ('idx', ('var', chars_name), ov) for x in walk_expr(c))
     ctx.check(ok, 'R-TAB', pm2.path, 'best_alignment', 'table lookup', 'ops and op_chars must be indexed by the same order index', g.line)
     # gap emission: per step exactly one symbol-or-gap per sequence, never gap/gap
     loop = [s for s in g.body if s.k == 'foreach' and s.target[0] == 'tuple']
@@ -598,11 +780,15 @@ def rule_alignment_tables(ctx, m):
                 else:
                     break
             ok = len(arms) == 3
+            gapname = g.args[3] if len(g.args) > 3 else 'gap'
+            lists = None
             for a in arms:
                 app = [(fmt(x[1][1]), fmt(x[2][0])) for s in walk_stmts(a) for e in stmt_exprs(s) for x in walk_expr(e) if x[0] == 'call' and x[1][0] == 'attr' and x[1][2] == 'append']
                 d = dict(app)
-                gaps = sum(1 for v in d.values() if v == 'gap')
-                ok = ok and len(app) == 2 and set(d) == {'s1a', 's2a'} and gaps <= 1
+                gaps = sum(1 for v in d.values() if v == gapname)
+                if lists is None:
+                    lists = set(d)
+                ok = ok and len(app) == 2 and len(d) == 2 and set(d) == lists and gaps <= 1
     ctx.check(ok, 'R-PATH', pm2.path, 'best_alignment', 'gap emission', 'each traceback step must append exactly one element to each aligned sequence and at most one of them a gap', g.line)
     # needleman_wunsch negates value and matrix together
     pm3, nw = _func(m, 'dtaidistance.alignment', 'needleman_wunsch')
